@@ -360,6 +360,63 @@ class ByteTextIO:
         self.close()
 
 
+FILE_LINES = [
+    b'[1000.100]  -> wl_display@1.get_registry(new id wl_registry@2)',
+    b'[1000.300]  -> wl_display@1.sync(new id wl_callback@3)',
+    b'\x1f\x8b\x08\x00 starts like a gzip stream and is none',            # magic numbers of container formats at the start of a line / of the file
+    b'\xef\xbb\xbf[1000.350] a byte order mark in front',
+    b'PK\x03\x04 BZh9 \xfd7zXZ\x00 \x00\x00\x00 NUL bytes \xff\xfe',
+    b'[1000.400] wl_callback@3.done(7)\r',                                    # CRLF line ends
+    b'one\rtwo lone carriage returns\rthree',
+    b'',
+]
+
+
+def hostile_files(ctx, case):
+    """`-l FILE` on REAL files (real open(), real text layer) whose bytes are hostile: magic numbers of compressed containers, a byte order mark, NUL
+    bytes, invalid UTF-8, CR and CRLF line ends, no final newline: main() returns, whatever was opened is closed, the well-formed lines around
+    the hostile ones are shown"""
+    import logging, importlib, tempfile, os, shutil
+    logging.disable(logging.CRITICAL)
+    from core import wl, matcher, util
+    from frontends.tui.arguments import Arguments, Mode
+    from core.output import Output
+    from lib.stubs import RecStream
+    n = case
+    util.color_output = False
+    wl.Message.base_time = None
+    main = importlib.import_module('main')
+    idx = [ctx.choose(list(range(len(FILE_LINES))), 'line%d' % k) for k in range(n)]
+    last_nl = ctx.choose([True, False], 'last_newline')
+    data = b''.join(FILE_LINES[i] + b'\n' for i in idx)
+    if not last_nl:
+        data = data[:-1]
+    d = tempfile.mkdtemp(prefix='verif-c18-')
+    out, err = RecStream(), RecStream()
+    saved = main.protocol.load_all
+    main.protocol.load_all = lambda o: None
+    try:
+        path = os.path.join(d, 'session.log')
+        with open(path, 'wb') as f:
+            f.write(data)
+        code = None
+        try:
+            main.main(Arguments(False, False, True, Mode.LOAD_FROM_FILE, path, matcher.always, matcher.never, None, ['main.py'], []), Output(False, True, out, err), lambda p: 'quit')
+        except SystemExit as e:
+            code = e.code
+        ctx.check('no traceback-style failure status', code in (None, 0))
+    finally:
+        main.protocol.load_all = saved
+        shutil.rmtree(d, ignore_errors=True)
+    news = [x for x in out.items if x.startswith('New ')]
+    closed = [x for x in out.items if x.startswith('Closed ')]
+    ctx.check('every connection that was opened is reported closed', len(news) == len(closed))
+    for i in set(idx):
+        if FILE_LINES[i].startswith(b'[1000.') and b'@' in FILE_LINES[i]:
+            name = FILE_LINES[i].split(b'.')[2].split(b'(')[0].decode()
+            ctx.check('the message line .%s is shown although hostile bytes surround it' % name, any(('.' + name + '(') in x for x in out.items))
+
+
 def undecodable_bytes(ctx, case):
     """a log with bytes that are not valid UTF-8, in file, pipe and run mode, through the real main(): consumed to the end, every opened connection
     reported closed, nothing escapes. The text layer (C code) is a stub with io.TextIOWrapper's documented contract; what the repository decides - how
@@ -583,6 +640,9 @@ def obligations(tier):
            'every text of <= %d characters, each any of 32..126' % (8 if tier == 'quick' else 11), argument_texts, cases=list(range(0, 9 if tier == 'quick' else 12))),
         Ob('hostile-lines', 'symx', 'sequences of hostile but well-matched message lines (enormous numbers, ill-typed special messages, duplicates) through the real line loop, manager and controller', FUNCS[:3],
            'all sequences of <= %d lines from a pool of %d' % (3 if tier == 'quick' else 4, len(HOSTILE_LINES)), hostile_lines, cases=[1, 2, 3] if tier == 'quick' else [1, 2, 3, 4]),
+        Ob('hostile-files', 'symx', '`-l FILE` on real files whose bytes are hostile (container magic numbers, byte order mark, NUL, invalid UTF-8, CR / CRLF, no final newline) through the real main() and the real text layer',
+           ['main:main', 'main:file_input_main', 'backends.libwayland_debug_output.parse:Parser.parse_all'], 'all files of <= %d lines from a pool of %d, last line with/without newline' % (3 if tier == 'quick' else 4, len(FILE_LINES)),
+           hostile_files, cases=[1, 2, 3] if tier == 'quick' else [1, 2, 3, 4], stubs=['protocol.load_all stubbed (no descriptions)'], outside='files the operating system cannot open / read (I/O errors)'),
         Ob('undecodable-bytes', 'symx', 'a log containing bytes that are not valid UTF-8 through the real main() in file, pipe and run mode', ['main:main', 'main:file_input_main', 'main:piped_input_main', 'backends.libwayland_debug_output.runner:run_program'] + FUNCS[:3],
            'all sequences of <= %d lines from a pool of %d (4 of them with undecodable bytes: in chatter, at the end of a message line, inside a string argument, alone), last line with/without newline, 3 modes, stdin policy strict / surrogateescape' % (3 if tier == 'quick' else 4, len(BYTE_LINES)),
            undecodable_bytes, cases=[(k, m) for k in ([1, 2, 3] if tier == 'quick' else [1, 2, 3, 4]) for m in ('file', 'pipe', 'run')],
